@@ -12,6 +12,7 @@ EXTERNAL: ElfSection::name / string_table follow an address stored in the tag - 
 """
 from .. import niche as NI
 from . import memsafe as MS
+from . import c05
 
 LOOPS = [
     ("ElfSectionIter<'_> as core::iter::traits::iterator::Iterator>::next", "counter loop: remaining_sections decreases by one per iteration and the loop stops at 0 (C19.E2)"),
@@ -20,7 +21,7 @@ LOOPS = [
 
 
 def run(ctx):
-    F, cl = MS.run_memsafe(ctx, "multiboot2", ["C14", "C15", "C03", "C05", "C18", "C19", "C20"], {"sites": 50})
+    F, cl = MS.run_memsafe(ctx, "multiboot2", ["C14", "C15", "C03", ("C05", c05.only_mbi_kinds, "boot-information kinds"), "C18", "C19", "C20"], {"sites": 50})
     # TagIter::new call sites
     n, bad = MS.tagiter_new_callsites(ctx, F, "multiboot2")
     ctx.check(n >= 2 and not bad, "P3", "TagIter::new-callers", "every TagIter::new call passes the inherent payload() of a loaded structure (length a multiple of 8, 8-aligned)",
